@@ -338,7 +338,7 @@ pub fn property() -> Property {
                 name: "multi",
                 rule: "MultiProgress histories (alphabet of C02 plus clock waits) on targets with refresh rate None/1/2/20/60/255 and a clock step of 0 (frozen: every limiter stays exhausted), 1, 20 or 2000 ms, each starting with one of the scenarios the statement names (non-first bar finished and dropped first, bar-level println after a reaped bar, skipped ticks while a dropped bar waits, then println/clear); after every op and at every flush each emitted token line must be on the terminal intact, once and in order; non-trivial = >=2 log lines, a draw after them, and a skipped draw or a dropped/retained bar",
                 strategy: multi_strategy,
-                cases: |t| t.pick(4_000, 200_000),
+                cases: |t| t.pick(4_000, 800_000),
                 run: run_multi,
                 signature: multi_signature,
                 essential: &["skipped_draw", "zombie_or_retained_block", "two_log_lines", "log_wraps", "frozen_clock_rate_limited", "bar_println"],
@@ -349,7 +349,7 @@ pub fn property() -> Property {
                 name: "single",
                 rule: "single-bar histories of C01 on rate-limited targets (1/3/20/255 Hz or unlimited) with clock steps 0/1/30/5000 ms and tokenised println/suspend lines; same token oracle; non-trivial = >=2 log lines, a draw after them, and a skipped draw or a println while the frame is empty",
                 strategy: single_strategy,
-                cases: |t| t.pick(4_000, 200_000),
+                cases: |t| t.pick(4_000, 800_000),
                 run: run_single,
                 signature: no_signature,
                 essential: &["skipped_draw", "println_while_frame_empty", "two_log_lines"],
